@@ -2104,6 +2104,25 @@ static std::string genEntries(Rng& rng, std::size_t count, bool f32) {
   return listStr(t);
 }
 
+// (round 4) per-lane degenerate recipe: in ONE lane `dl` the matrix entries are mostly zeros (+0 / -0), the vector entries often
+// non-finite or -0 and the factor is a zero, while the other lanes carry ordinary data -- a decision taken once for all lanes (a quick
+// return, a skipped term, a reduction in front of lane-wise work) then shows in this lane only.  kind 0: matrix, 1: vector, 2: factor
+static std::string genEntriesLane(Rng& rng, std::size_t count, std::size_t S, bool f32, int dl, int kind) {
+  const std::string negZero = f32 ? "x80000000" : "x8000000000000000";
+  const std::vector<std::string> nonFinite = f32 ? std::vector<std::string>{"x80000000", "x7f800000", "xff800000", "x7fc00000"}
+                                                 : std::vector<std::string>{"x8000000000000000", "x7ff0000000000000", "xfff0000000000000", "x7ff8000000000000"};
+  std::vector<std::string> t;
+  for (std::size_t i = 0; i < count; ++i) {
+    if (dl >= 0 && static_cast<int>(i % S) == dl) {
+      if (kind == 0 && rng.coin(1, 2)) { t.push_back(rng.coin(1, 2) ? "0" : negZero); continue; }
+      if (kind == 1 && rng.coin(1, 3)) { t.push_back(rng.pick(nonFinite)); continue; }
+      if (kind == 2 && rng.coin(2, 3)) { t.push_back(rng.coin(2, 3) ? "0" : negZero); continue; }
+    }
+    t.push_back(genEntry(rng, f32));
+  }
+  return listStr(t);
+}
+
 static std::string genRect(Rng& rng) {
   static const std::vector<std::string> whats = {"mv", "mtv", "umv", "umtv", "mmv", "mmtv", "usmv", "usmtv", "umhv", "mmhv", "usmhv", "fnorm2", "fnorm", "infnorm", "infnormr",
                                                  "madd", "msub", "mscale", "mdiv", "mneg", "maxpy"};
@@ -2112,13 +2131,15 @@ static std::string genRect(Rng& rng) {
   const std::size_t S = shapeLanesM(shape);
   const bool f32 = shape == "f4";
   auto rc = rng.pick(rectSizes());
-  std::string line = "rect " + what + " " + shape + " " + std::to_string(rc.first) + " " + std::to_string(rc.second) + " " + genEntries(rng, rc.first * rc.second * S, f32);
+  const int dl = rng.coin(1, 3) ? static_cast<int>(rng.range(0, static_cast<long>(S) - 1)) : -1;   // the degenerate lane, if any
+  if (dl >= 0) dv::stat("rect_degenerate_lane");
+  std::string line = "rect " + what + " " + shape + " " + std::to_string(rc.first) + " " + std::to_string(rc.second) + " " + genEntriesLane(rng, rc.first * rc.second * S, S, f32, dl, 0);
   if (what.find("norm") != std::string::npos) return line;
   if (what == "madd" || what == "msub" || what == "mscale" || what == "mdiv" || what == "mneg" || what == "maxpy")
-    return line + " " + genEntries(rng, rc.first * rc.second * S, f32) + " [] " + genEntries(rng, S, f32);
+    return line + " " + genEntriesLane(rng, rc.first * rc.second * S, S, f32, dl, 1) + " [] " + genEntriesLane(rng, S, S, f32, dl, 2);
   const bool transposed = what == "mtv" || what == "umtv" || what == "mmtv" || what == "usmtv" || what == "umhv" || what == "mmhv" || what == "usmhv";
   const int nx = transposed ? rc.first : rc.second, ny = transposed ? rc.second : rc.first;
-  return line + " " + genEntries(rng, nx * S, f32) + " " + genEntries(rng, ny * S, f32) + " " + genEntries(rng, S, f32);
+  return line + " " + genEntriesLane(rng, nx * S, S, f32, dl, 1) + " " + genEntriesLane(rng, ny * S, S, f32, dl, 1) + " " + genEntriesLane(rng, S, S, f32, dl, 2);
 }
 
 static std::string genFVec(Rng& rng) {
@@ -2128,9 +2149,10 @@ static std::string genFVec(Rng& rng) {
   const std::size_t S = shapeLanesM(shape);
   const bool f32 = shape == "f4";
   const int n = rng.pick(fvecSizes());
-  std::string line = "vec " + what + " " + shape + " " + std::to_string(n) + " " + genEntries(rng, n * S, f32);
-  if (what == "dot" || what == "axpy") line += " " + genEntries(rng, n * S, f32);
-  if (what == "axpy") line += " " + genEntries(rng, S, f32);
+  const int dl = rng.coin(1, 3) ? static_cast<int>(rng.range(0, static_cast<long>(S) - 1)) : -1;   // the degenerate lane, if any
+  std::string line = "vec " + what + " " + shape + " " + std::to_string(n) + " " + genEntriesLane(rng, n * S, S, f32, dl, 1);
+  if (what == "dot" || what == "axpy") line += " " + genEntriesLane(rng, n * S, S, f32, dl, 0);
+  if (what == "axpy") line += " " + genEntriesLane(rng, S, S, f32, dl, 2);
   return line;
 }
 
